@@ -33,14 +33,27 @@
     `self->cmd` / the event's command is dereferenced, the variable cursors stay inside the
     variable lists, and no print is attempted with the cursor beyond the capacity — for both
     machines.  The invariants behind it are `UbInv` / `UbInvU` (`C03_index_discipline`).
-  Not proved: the same for the `oob` flag along every history (variable storage vs. declared
-  sizes, parser read cursor, output cursor: these need descriptor well-formedness and the
-  termination of every text inside its region); and nothing here is about the compiled code's
-  actual accesses — that is what the sanitizer-instrumented correspondence run samples.  Hence
-  PARTIAL.
+  * `C03_no_out_of_bounds` (`Proofs/NoOob.lean`, `Proofs/LenMem.lean`, `Proofs/NoOobHist.lean`): along EVERY
+    history of API calls from `cat_init` the `oob` flag stays false too — every store into a working
+    buffer lands inside the acting machine's region, the argument parsers stop at the NUL that ends
+    the argument text, the output cursor never passes the NUL that ends a response (nor the
+    "\r\n" literal), every variable access stays inside `data_size` bytes of storage that is at
+    least that long, the match-state lanes of all commands lie inside the command region and the
+    ring indices inside the ring.  Hypotheses, each of them a real precondition of the C code
+    (the real code was run at the excluded points, DESIGN.md 2.3): `DescOk` — the lanes of all
+    commands fit the command region (the `assert` of `cat_init`, read for the command half), the
+    command region holds `ERROR` and its terminator (6 bytes), no hex-buffer variable has
+    `data_size = 0`; `MemOk` — each variable's storage really is `data_size` bytes long; the working
+    buffer really is `buf_size` long; the ring capacity is positive; event handlers do not answer
+    HOLD.  The invariants behind it: `OobF` (where each machine's text ends, by phase), `OobA` (the
+    argument text), `RingInv`, `UbInv`/`UbInvU`, slot lengths (`LenE`).
+  What remains outside Lean: nothing here is about the compiled code's actual accesses — that the
+  C code performs the accesses the model performs (and no others) is what the
+  sanitizer-instrumented correspondence run samples.  Hence PARTIAL.
 -/
 import CatVerif.Proofs.NoFault
 import CatVerif.Proofs.NoUbHist
+import CatVerif.Proofs.NoOobHist
 import CatVerif.Properties.C06
 namespace Cat
 open St
@@ -143,5 +156,73 @@ theorem C03_index_discipline (D : Desc) (buf ubuf : List Byte) (mem : List (List
     (hok : ∀ op ∈ ops, OpOk op) (hn : 0 < D.commandsNum) :
     UbAll (runOps ⟨D, init D buf ubuf mem⟩ ops).1.D (runOps ⟨D, init D buf ubuf mem⟩ ops).1.s :=
   (runOps_noUb ops ⟨D, init D buf ubuf mem⟩ hok hn (C03_init_discipline D buf ubuf mem)).2
+
+/-- the state `cat_init` leaves behind satisfies every invariant of the out-of-bounds proof -/
+theorem C03_init_good (D : Desc) (buf ubuf : List Byte) (mem : List (List Byte))
+    (hn : 0 < D.commandsNum) (hc : 0 < D.cap) (hd : DescOk D) (hb : D.cmdCap ≤ buf.length)
+    (hm : ∀ id, ∀ v ∈ (D.cmdD id).vars.getD [], v.dataSize ≤ (mem.getD v.slot []).length) :
+    Good ⟨D, init D buf ubuf mem⟩ := by
+  refine ⟨hn, ⟨hd, ?_, init_ringInv D buf ubuf mem hc, ?_⟩, C03_init_discipline D buf ubuf mem, ⟨.other ?_, .other ?_ ?_, .other ?_⟩⟩
+  · intro id v hv; simpa [init, St.slotGet] using hm id v hv
+  · simpa [BufOk, init] using hb
+  · simp [init, St.ph, CState.ph]
+  · simp [init]
+  · simp [init]
+  · simp [init, St.ph, UState.ph]
+
+/-- **No out-of-bounds access along any history**: whatever bytes arrive, whatever the handlers and
+variable callbacks answer (event handlers not answering HOLD), whatever API calls are made from
+inside callbacks or between service calls, and however the flags and variable contents are changed
+in between, the model never touches a byte outside the region, variable, literal or ring it is
+working on. -/
+theorem C03_no_out_of_bounds (D : Desc) (buf ubuf : List Byte) (mem : List (List Byte)) (ops : List Op)
+    (hok : ∀ op ∈ ops, OpOk op) (hn : 0 < D.commandsNum) (hc : 0 < D.cap) (hd : DescOk D) (hb : D.cmdCap ≤ buf.length)
+    (hm : ∀ id, ∀ v ∈ (D.cmdD id).vars.getD [], v.dataSize ≤ (mem.getD v.slot []).length) :
+    (runOps ⟨D, init D buf ubuf mem⟩ ops).1.s.oob = false := by
+  have := (runOps_noOob ops ⟨D, init D buf ubuf mem⟩ hok (C03_init_good D buf ubuf mem hn hc hd hb hm)).1
+  rw [this]; rfl
+
+/-- the invariants of the out-of-bounds proof hold in every reachable state: in particular every
+response text and the argument text end in a NUL inside their region (`OobF`, `OobA`) -/
+theorem C03_text_terminated (D : Desc) (buf ubuf : List Byte) (mem : List (List Byte)) (ops : List Op)
+    (hok : ∀ op ∈ ops, OpOk op) (hn : 0 < D.commandsNum) (hc : 0 < D.cap) (hd : DescOk D) (hb : D.cmdCap ≤ buf.length)
+    (hm : ∀ id, ∀ v ∈ (D.cmdD id).vars.getD [], v.dataSize ≤ (mem.getD v.slot []).length) :
+    Good (runOps ⟨D, init D buf ubuf mem⟩ ops).1 :=
+  (runOps_noOob ops ⟨D, init D buf ubuf mem⟩ hok (C03_init_good D buf ubuf mem hn hc hd hb hm)).2
+
+/-- the hypotheses are satisfiable: one command with an 8-bit and a hex-buffer variable, a shared
+16-byte working buffer (8 + 8), ring capacity 1 -/
+def exCmd : CmdD :=
+  ⟨[43, 88], none, true, true, false, false,
+   some [⟨none, .intDec, 0, 1, .rw, false, false⟩, ⟨none, .bufHex, 1, 2, .rw, false, false⟩], false, false, false, false⟩
+
+def exDesc : Desc := ⟨[⟨none, [exCmd], false⟩], [], 16, none, 1, false⟩
+
+theorem exDesc_cmdD : ∀ id, (exDesc.cmdD id).vars.getD [] = [] ∨ id = some 0 := by
+  intro id
+  cases id with
+  | none => left; rfl
+  | some k =>
+    cases k with
+    | zero => right; rfl
+    | succ n =>
+      left
+      simp [Desc.cmdD, Desc.cmd?, exDesc, Desc.commandsNum]
+      rfl
+
+example : Good ⟨exDesc, init exDesc (List.replicate 16 0) [] [[0], [0, 0]]⟩ := by
+  refine C03_init_good exDesc _ _ _ (by decide) (by decide) ⟨by decide, by decide, ?_⟩ (by decide) ?_
+  · intro id v hv
+    rcases exDesc_cmdD id with h | h
+    · rw [h] at hv; simp at hv
+    · subst h
+      simp [Desc.cmdD, Desc.cmd?, exDesc, exCmd, Desc.commandsNum, cmdByIndex] at hv
+      rcases hv with hv | hv <;> subst hv <;> simp [VarOk]
+  · intro id v hv
+    rcases exDesc_cmdD id with h | h
+    · rw [h] at hv; simp at hv
+    · subst h
+      simp [Desc.cmdD, Desc.cmd?, exDesc, exCmd, Desc.commandsNum, cmdByIndex] at hv
+      rcases hv with hv | hv <;> subst hv <;> simp
 
 end Cat
